@@ -37,6 +37,8 @@ func main() {
 	switch os.Args[1] {
 	case "check":
 		os.Exit(cmdCheck(os.Args[2:]))
+	case "validate-externs":
+		os.Exit(cmdValidateExterns())
 	case "ssa":
 		P, err := loadProg("/repo", "")
 		if err != nil {
@@ -235,7 +237,13 @@ func cmdCheck(args []string) int {
 		}
 		return nil
 	}
+	type searchRes struct {
+		ok   bool
+		info interface{}
+	}
+	searched := map[string]searchRes{}
 	violations := 0
+	knownCount := 0
 	discharged := 0
 	engineErr := false
 	perBackend := map[string]int{}
@@ -277,7 +285,7 @@ func cmdCheck(args []string) int {
 			if kf := isKnown(vc); kf != nil {
 				fmt.Printf("KNOWN-FINDING: property=%s %s [%s]\n", *prop, kf.What, vc.Name)
 				knownHit = append(knownHit, vc.Name)
-				discharged++ // accounted for, not proved; reported separately in evidence
+				knownCount++
 				continue
 			}
 			violations++
@@ -286,12 +294,24 @@ func cmdCheck(args []string) int {
 			suffix := " no-failing-input-found"
 			rep := map[string]interface{}{"property": *prop, "obligation": vc.Name, "clause": vc.Clause, "function": vc.Func,
 				"solver_result": vc.Result, "backend": vc.Backend, "all_results": vc.AllRes, "solver_output": truncate(vc.Output, 20000)}
-			if vc.Result == "sat" {
-				if ok, info := tryReplay(P, vc, *repo, work); ok {
-					suffix = ""
-					rep["replay"] = info
+			if ok, info := tryReplay(P, vc, *repo, work); ok {
+				suffix = ""
+				rep["replay"] = info
+			} else {
+				rep["replay"] = info
+				// no usable model: look for a failing input by bounded enumeration (once per function)
+				if r, done := searched[vc.Func]; done {
+					rep["search"] = r.info
+					if r.ok {
+						suffix = ""
+					}
 				} else {
-					rep["replay"] = info
+					ok2, info2 := searchFailingInput(P, vc, *repo, work)
+					searched[vc.Func] = searchRes{ok2, info2}
+					rep["search"] = info2
+					if ok2 {
+						suffix = ""
+					}
 				}
 			}
 			b, _ := json.MarshalIndent(rep, "", " ")
@@ -309,7 +329,7 @@ func cmdCheck(args []string) int {
 		fmt.Printf("VIOLATION property=%s replay=%s no-failing-input-found\n", *prop, rp)
 		fmt.Printf("  %s\n", bf)
 	}
-	total := len(vcs)
+	total := len(vcs) - knownCount // obligations that fail as listed known findings are reported separately, not counted
 	if total == 0 && len(bindingFailures) == 0 {
 		fmt.Printf("ENGINE-ERROR: no obligations generated for %s\n", *prop)
 		engineErr = true
@@ -387,6 +407,50 @@ func (P *Prog) assumptionList(prop string) []string {
 	return out
 }
 
-func tryReplay(P *Prog, vc *VC, repo, work string) (bool, string) {
-	return false, "replay harness: model values are in solver_output; no executable harness for this signature"
+
+// cmdValidateExterns runs every assumed pure library contract with scalar/string parameters against
+// the real library on an enumeration of small inputs (keeps the prelude honest; thorough tier).
+func cmdValidateExterns() int {
+	P, err := loadProg("/repo", "/verif/prelude")
+	if err != nil {
+		fmt.Println(err)
+		return 2
+	}
+	work, _ := os.MkdirTemp("", "govc-externs-")
+	defer os.RemoveAll(work)
+	bad := 0
+	for _, k := range sortedKeys(P.externs) {
+		fc := P.externs[k]
+		fn := P.findExternFn(k)
+		if fn == nil {
+			fmt.Printf("%-36s no such function\n", k)
+			bad++
+			continue
+		}
+		ps, ok := replayParams(fn)
+		if !ok || len(fc.Ensures) == 0 {
+			fmt.Printf("%-36s not validated (signature outside fragment or no ensures)\n", k)
+			continue
+		}
+		ok2, failed, _, out, reason := runContractOnInputs(P, fn, fc, ps, nil, 8, "/repo", work)
+		switch {
+		case !ok2:
+			fmt.Printf("%-36s not validated: %s %s\n", k, reason, truncate(out, 300))
+		case len(failed) > 0:
+			fmt.Printf("%-36s CONTRACT FALSE on real library: %v\n%s\n", k, failed, truncate(out, 600))
+			bad++
+		default:
+			n := ""
+			for _, ln := range strings.Split(out, "\n") {
+				if strings.HasPrefix(ln, "REPLAY-SEARCHED") {
+					n = ln
+				}
+			}
+			fmt.Printf("%-36s ok (%s)\n", k, n)
+		}
+	}
+	if bad > 0 {
+		return 1
+	}
+	return 0
 }
